@@ -35,6 +35,29 @@ pub fn build_engine_opts(rules: &[String], debug: bool, optimize: bool, resource
     e
 }
 
+/// The same network rules supplied ONE AT A TIME: `Blocker::new(no rules)` followed by
+/// `Blocker::add_filter` per rule, in list order. `None` when the list contains a `$badfilter`
+/// rule (`add_filter` documents those as unsupported). A `FilterExists` refusal is fine for a
+/// line that was already added verbatim; for any other line it is reported through `refused`.
+pub fn incremental_blocker(rules: &[String], opts: ParseOptions, tags: &[String], refused: &mut Vec<String>) -> Option<adblock::blocker::Blocker> {
+    use adblock::blocker::{Blocker, BlockerOptions};
+    let parsed = parse_network_opts(rules, opts);
+    if parsed.iter().any(|p| p.f.is_badfilter()) {
+        return None;
+    }
+    let mut b = Blocker::new(Vec::new(), &BlockerOptions { enable_optimizations: false });
+    let mut seen: HashSet<String> = HashSet::new();
+    for p in &parsed {
+        let line = p.line.trim().to_string();
+        if b.add_filter(p.f.clone()).is_err() && !seen.contains(&line) {
+            refused.push(line.clone());
+        }
+        seen.insert(line);
+    }
+    b.use_tags(&tags.iter().map(|s| s.as_str()).collect::<Vec<_>>());
+    Some(b)
+}
+
 pub fn split_csp(s: &str, _hits: &[&Parsed]) -> BTreeSet<String> {
     s.split(',').map(|x| x.to_string()).collect()
 }
